@@ -662,6 +662,10 @@ impl Context {
                 let f = (*i) as f64;
                 (format!("{f}f64").into(), true)
             }
+            (Literal::Int(i), CodegenTy::OrderedF64) => {
+                let f = (*i) as f64;
+                (format!("::pilota::OrderedFloat({f}f64)").into(), true)
+            }
             (
                 Literal::Int(i),
                 CodegenTy::Adt(AdtDef {
